@@ -22,28 +22,29 @@ ASSUMPTIONS = ['laws: not F[a,b] p = G[a,b] not p; not O[a,b] p = H[a,b] not p (
 
 def operands(tier):
     px, py, X, Y = F.PX, F.PY, F.X, F.Y
-    ps = [px, X, ('once', (0, 1), px), ('not', px), ('and', px, py), ('historically', None, X)]
+    ps = [px, X, ('once', (0, 1), px), ('not', px), ('and', px, py), ('historically', None, X), ('eventually', (0, 1), X), ('pred', '==', X, Y)]
     qs = [py, Y]
     if tier != 'quick':
-        ps += [('eventually', (0, 1), X), ('since', None, X, Y), ('pred', '==', X, Y), ('always', (1, 2), px)]
+        ps += [('since', None, X, Y), ('always', (1, 2), px), ('once', None, ('or', px, py))]
         qs += [('once', (1, 2), Y)]
     return ps, qs
 
 
 def laws(tier):
     """(name, lhs, rhs, kinds)"""
-    I = F.I_QUICK if tier == 'quick' else F.I_FULL
+    I = F.I_FULL if tier != 'quick' else F.I_QUICK + ((0, 2),)
     ps, qs = operands(tier)
     out = []
     for p in ps:
+        past = 'past' if F.past_only(p) else 'future'
         for a, b in I:
             out.append(('not-eventually', ('not', ('eventually', (a, b), p)), ('always', (a, b), ('not', p)), 'future'))
-            out.append(('not-once', ('not', ('once', (a, b), p)), ('historically', (a, b), ('not', p)), 'past'))
-        out.append(('not-once-unbounded', ('not', ('once', None, p)), ('historically', None, ('not', p)), 'past'))
+            out.append(('not-once', ('not', ('once', (a, b), p)), ('historically', (a, b), ('not', p)), past))
+        out.append(('not-once-unbounded', ('not', ('once', None, p)), ('historically', None, ('not', p)), past))
         out.append(('not-eventually-unbounded', ('not', ('eventually', None, p)), ('always', None, ('not', p)), 'offline'))
         for (a, b), (c, d) in itertools.product(I, I):
             out.append(('ev-ev', ('eventually', (a, b), ('eventually', (c, d), p)), ('eventually', (a + c, b + d), p), 'future'))
-            out.append(('once-once', ('once', (a, b), ('once', (c, d), p)), ('once', (a + c, b + d), p), 'past'))
+            out.append(('once-once', ('once', (a, b), ('once', (c, d), p)), ('once', (a + c, b + d), p), past))
         for q in qs:
             out.append(('implies', ('implies', p, q), ('or', ('not', p), q), 'past' if F.past_only(p) and F.past_only(q) else 'future'))
             if F.past_only(p):
